@@ -25,7 +25,7 @@ TRUSTED = [
     "TSIG rdata is opaque in the model (pre-computed MAC octets); signing itself is exercised by the "
     "oracle-only `signed` sweeps (hmac recomputed by dns.message.from_wire with the keyring)",
 ]
-RULE = ("each generated message (<= 4 kB) is rendered at EVERY limit from 512 up to its full size (+2) for "
+RULE = ("each generated message (<= 2.6 kB) is rendered at EVERY limit from 512 up to its full size (+2) for "
         "pad in {0,1,16,128,468} x EDNS on/off x TSIG on/off x prefer_truncation on/off; the implementation and the "
         "model must agree octet for octet at every limit (results are run-length encoded per chunk of limits); "
         "distinct = distinct (message, configuration, limit chunk)")
@@ -67,6 +67,111 @@ def reuse_impl(am, origin, lims, reqp, prefer, pad):
             r = g.exc_code(e)
         out.append([r, int(m.flags), g.run_render(am, origin, lim, reqp, prefer, pad)])
     return out
+
+
+API_SECRET = b"0123456789abcdef0123456789abcdef"
+
+
+def rapi_impl(origin, mid, flags, ms, ops, extra):
+    """dns.renderer.Renderer used directly: reserve / add_question / add_rrset (TooBig caught) /
+    release_reserved / add_edns / write_header / add_tsig / get_wire"""
+    import dns.renderer
+    import dns.edns
+    try:
+        r = dns.renderer.Renderer(id=mid, flags=flags, max_size=ms, origin=None if origin is None else g.N(origin))
+    except Exception as e:  # noqa
+        return g.exc_code(e)
+    res = []
+    try:
+        if extra["reserve"]:
+            r.reserve(extra["reserve"])
+        for op in ops:
+            try:
+                if op[0] == 0:
+                    r.add_question(g.N(op[1]), op[2], op[3])
+                else:
+                    r.add_rrset(op[0], g.mk_rrset(op[1]), want_shuffle=False)
+                res.append(0)
+            except dns.exception.TooBig:
+                res.append(1)
+        if extra["reserve"] and extra["release"]:
+            r.release_reserved()
+        if extra["edns"] is not None:
+            ev, ef, pl, opts = extra["edns"]
+            try:
+                r.add_edns(ev, ef, pl, [dns.edns.GenericOption(c, bytes(d)) for c, d in opts])
+                res.append(0)
+            except dns.exception.TooBig:
+                res.append(1)
+        r.write_header()
+        if extra["tsig"] is not None:
+            kn, alg = extra["tsig"]
+            try:
+                r.add_tsig(g.N(kn), API_SECRET, 300, mid, 0, b"", b"", dns.name.from_text(alg))
+                res.append(0)
+            except dns.exception.TooBig:
+                res.append(1)
+        return [res, r.get_wire()]
+    except Exception as e:  # noqa
+        return g.exc_code(e)
+
+
+def check_rapi(case, out, fail):
+    _, origin, mid, flags, ms, ops, extra = case
+    if isinstance(out, Err):
+        fail("the Renderer call sequence raised " + out.text, sig="exc")
+        return
+    res, w = out
+    w = bytes(w)
+    res = list(res)
+    if len(w) > max(ms, 12):
+        fail("renderer output exceeds max_size", length=len(w), max_size=ms, sig="size")
+    if extra["reserve"] and not extra["release"] and len(w) > max(ms - extra["reserve"], 12):
+        fail("renderer output uses reserved octets that were never released", length=len(w), sig="reserve")
+    n = len(ops)
+    body, tail = res[:n], res[n:]
+    edns_ok = extra["edns"] is not None and tail[0] == 0
+    tsig_ok = extra["tsig"] is not None and tail[-1] == 0
+    try:
+        wk = g.walk(w)
+        if wk["end"] != len(w):
+            fail("header counts are not consistent with the octets present", sig="counts")
+    except g.WalkError as e:
+        fail("result cannot be walked: " + str(e), sig="walk")
+        return
+    for pp in g.check_pointers(w):
+        fail("compression pointer into removed or unknown bytes: " + pp, sig="pointer")
+        break
+    keyring = None
+    if tsig_ok:
+        keyring = {g.N(extra["tsig"][0]): dns.tsig.Key(g.N(extra["tsig"][0]), API_SECRET, dns.name.from_text(extra["tsig"][1]))}
+    try:
+        p = dns.message.from_wire(w, keyring=keyring if keyring else False,
+                                  origin=None if origin is None else g.N(origin), one_rr_per_rrset=True)
+    except Exception as e:  # noqa
+        fail("result of the Renderer call sequence does not parse/validate: " + type(e).__name__, sig="parse")
+        return
+    if tsig_ok != (p.tsig is not None) or (tsig_ok and not p.had_tsig):
+        fail("TSIG record lost or invented", sig="tsig")
+    if edns_ok != (p.opt is not None):
+        fail("OPT record lost or invented", sig="opt")
+    elif edns_ok:
+        ev, ef, pl, opts = extra["edns"]
+        want_ttl = (ef & 0xFF00FFFF) | (ev << 16)
+        if (int(p.opt.ttl), int(p.payload), [[int(o.otype), bytes(o.to_wire())] for o in p.options]) != \
+           (want_ttl, pl, [[c, bytes(d)] for c, d in opts]):
+            fail("OPT record differs from what add_edns was given", sig="optdata")
+    kept = [op for op, fl in zip(ops, body) if fl == 0]
+    am = [mid, flags, [[[op[1], op[3], op[2], 0, None, 0, []] for op in kept if op[0] == 0]] +
+          [[op[1] for op in kept if op[0] == sct] for sct in (1, 2, 3)], None, None]
+    try:
+        pa = g.message_abs(p)
+    except g.Unmodelled:
+        return
+    want = rr_list([mid, flags, [am[2][0]] + [[rs[:6] + [[rd]] for rs in am[2][sct] for rd in (rs[6] or [None]) if rd is not None]
+                                              for sct in (1, 2, 3)], None, None], origin)
+    if rr_list(pa, origin) != want:
+        fail("records kept by the renderer differ from the accepted calls", sig="records")
 
 
 def residue_message(n, keyname, tsig_rd, with_option):
@@ -265,6 +370,24 @@ def cases(ctx):
         origin = None if rng.random() < 0.8 else [b"o", b"example", b""]
         mid, flags, ms, ops = g.gen_rseq(rng, origin)
         yield "rseq", [7, origin, mid, flags, ms, ops]
+    # the Renderer API used directly, with reserve/release, add_edns and add_tsig (oracle only)
+    for i in range(ctx.n(120, 800)):
+        origin = None if rng.random() < 0.8 else [b"o", b"example", b""]
+        mid, flags, ms, ops = g.gen_rseq(rng, origin)
+        ms = rng.choice([ms + 120, ms + 300, 512, 700, 1200])
+        owners = [op[1][0] for op in ops if op[0] != 0 and op[1][0] and op[1][0][-1] == b""]
+        kn = [b"key", b"example", b""]
+        if owners and rng.random() < 0.7:
+            ow = rng.choice(owners)
+            kn = list(ow) if rng.random() < 0.5 else [b"k"] + list(ow)
+            while g.wire_len(kn) > 255:
+                kn = kn[1:]
+        resv = rng.choice([0, 0, 30, 80])
+        extra_ = {"reserve": resv, "release": rng.random() < 0.7,
+                  "edns": rng.choice([None, [rng.choice([0, 0, 1]), rng.choice([0, 0x8000, 0x00FF8000]), rng.choice([512, 1232, 4096]),
+                                             rng.choice([[], [[65001, b"\x01\x02"]]])]]),
+                  "tsig": rng.choice([None, [kn, rng.choice(["hmac-sha256.", "hmac-sha1.", "hmac-sha512."])]])}
+        yield "rapi", [11, origin, mid, flags, ms, ops, extra_]
     # signed sweeps (oracle only)
     for i in range(ctx.n(2, 5)):
         am = g.gen_query_like(rng, None, "medium", opcode=0, with_tsig=False)
@@ -353,6 +476,9 @@ def impl(case):
     if op == 10:
         _, am, origin, max_size, reqp, prefer, pad = case
         return g.run_render(am, origin, max_size, reqp, prefer, pad)
+    if op == 11:
+        _, origin, mid, flags, ms, ops, extra_ = case
+        return rapi_impl(origin, mid, flags, ms, ops, extra_)
     if op == 9:
         _, am, pad, keymode, prefer = case
         try:
@@ -454,6 +580,9 @@ def oracle(ctx, kind, case, out):
         return F
     if op == 7:
         g.check_rseq(case, out, fail)
+        return F
+    if op == 11:
+        check_rapi(case, out, fail)
         return F
     if op == 8:
         _, am, origin, lims, reqp, prefer, pad = case
